@@ -112,7 +112,7 @@ func runC04(c *Ctx) {
 }
 
 func runC04Seq(c *Ctx) {
-	histories := c.Pick(60, 1500)
+	histories := c.Pick(100, 1500)
 	if c.Arg("heavy", "") == "1" {
 		histories = 3000
 	}
